@@ -27,6 +27,10 @@ prop('T04', units=['ptr'], assumptions=[A_VERUS, A_EXTRACT], not_covered=[], rep
 
 prop('T05', units=['order'], assumptions=[A_VERUS, A_EXTRACT], not_covered=[], replay=None)
 
+prop('T06', units=['bottomup', 'builder'], assumptions=[A_VERUS, A_EXTRACT], not_covered=[], replay=None)
+
+prop('T07', units=['robdd'], assumptions=[A_VERUS, A_EXTRACT], not_covered=[], replay=None)
+
 
 def proved_includes(root):
     """set of inc/*.rs files that some unit template includes non-assumed"""
